@@ -627,10 +627,11 @@ def t_linear(b, n, rng):
         y = b.gradient(A, x)
         ys.append(y)
         x = b.plin([(x, 1.0), (y, -r2(0.5 / L))])
-    if cls == "LinearOperator":
+    if cls == "LinearOperator" and rng.random() < 0.8:
         u = b.point()
         _ = b.gradient(A + "T", u)
         b.bound(b.sq(u), 1.0)
+    # (otherwise the operator is only applied forward: its adjoint has no sample)
     b.bound(b.sq(x0), 1.0, how="initial")
     if cls == "SkewSymmetricLinearOperator" and rng.random() < 0.5:
         b.metric(b.inner(x0, ys[0]))     # <x, Ax>: zero for every skew-symmetric operator
@@ -801,6 +802,17 @@ def decorate(b, rng, kinds):
             if pts and rng.random() < 0.5:
                 # a user constraint attached to the partition itself (public BlockPartition.add_constraint)
                 b.bound(b.sq(rng.choice(pts)), 3e3, target=Bp)
+        elif kind == "idle_operator":
+            # an operator / function that is declared and never evaluated
+            c = rng.choice(["SymmetricLinearOperator", "SkewSymmetricLinearOperator", "LinearOperator",
+                            "SmoothConvexFunction", "ConvexFunction"])
+            if c == "SymmetricLinearOperator":
+                b.func(c, mu=0.1, L=1.0)
+            elif c == "ConvexFunction":
+                b.func(c)
+            else:
+                b.func(c, L=1.0)
+            b.funcs.pop()
         elif kind == "double_reg":
             # the same Constraint object registered with a second owner (it then reaches the solver twice)
             cands = [o for o in b.ops if o["op"] == "cons" and o.get("target") == P]
@@ -856,7 +868,7 @@ def decorate(b, rng, kinds):
 
 DECORATIONS = ["extra_metric", "redundant_cons", "eq_cons", "func_cons", "lmi_sym", "lmi_asym", "lmi_func", "lmi3",
                "unused_query", "useless_partition", "orphan_psd", "part_cons", "zero_coef", "mirror", "leaf_metric",
-               "leaf_sides", "composite_items", "double_reg"]
+               "leaf_sides", "composite_items", "double_reg", "idle_operator"]
 
 
 def build_model(rng, prefix="", template=None, n=None, decorations=None, names=None, weights=None,
